@@ -335,7 +335,7 @@ def defect(draw, units, ctx):
     kind = draw(st.sampled_from(["swap", "delete", "dup", "insert", "next", "prev", "picnum", "version", "level", "variant",
                                  "alien", "fragshape", "drop_eos", "next_zero_nonpic", "interleave_pic", "restart_frag",
                                  "interleave_pic", "restart_frag", "drop_last_picture", "frag_xy", "frag_xy", "version_plus_one",
-                                 "version_plus_one", "drop_first_fragment", "drop_first_fragment"]))
+                                 "version_plus_one", "drop_first_fragment", "drop_first_fragment", "truncate_fragments"]))
     n = len(units)
     i = draw(st.integers(0, n - 1))
     j = draw(st.integers(0, n - 1))
@@ -425,6 +425,15 @@ def defect(draw, units, ctx):
         cands = [k for k, x in enumerate(units) if x["kind"] == "F0"]
         if cands:
             del units[cands[draw(st.integers(0, len(cands) - 1))]]
+    elif kind == "truncate_fragments":
+        # the last picture of the sequence is fragmented and loses its last fragment(s): the sequence ends (or the
+        # stream stops) while a fragmented picture is incomplete, everything before it being in order
+        starts = [k for k, x in enumerate(units) if x["kind"] in ("PIC", "F0")]
+        if starts and units[starts[-1]]["kind"] == "F0":
+            conts = [k for k in range(starts[-1] + 1, len(units)) if units[k]["kind"] == "FN"]
+            if conts:
+                for k in reversed(conts[len(conts) - draw(st.integers(1, len(conts))):]):
+                    del units[k]
     elif kind == "drop_last_picture":
         # remove the last whole picture (numbering of the others stays consistent): an odd number of fields remains
         starts = [k for k, x in enumerate(units) if x["kind"] in ("PIC", "F0")]
